@@ -47,6 +47,7 @@ type G struct {
 	objs        []objInfo
 	intVars     []string
 	shows       []string // top-level objects with their own S method
+	strVars     []string // top-level string variables (pinned keys)
 	topInts     []string // top-level int variables (targets of compound assignment)
 	curKw       []string // keyword parameters of the function literal being generated
 	selfMethods []fnInfo // inside a method body: int-returning methods of the same object defined before it
@@ -86,6 +87,12 @@ func (g *G) topStmt() *N {
 	}
 	if g.p.LitW > 0 && len(g.shows) < 2 {
 		w[5] = 1
+	}
+	if g.p.LitW > 0 && len(g.strVars) < 2 && g.t.Chance(1, 4) {
+		// a string variable, used as a pinned key (`{^pk1: e}`) later on
+		name := g.name("pk")
+		g.strVars = append(g.strVars, name)
+		return &N{K: KAssign, Str: name, A: &N{K: KStr, Str: "z" + name}}
 	}
 	switch g.t.Pick(w...) {
 	case 5:
@@ -469,6 +476,17 @@ func (g *G) objLit(depth int) *N {
 			o.Keys = append(o.Keys, key)
 			continue
 		}
+		if len(g.strVars) > 0 && g.t.Chance(1, 4) {
+			// pinned key: the key is the value of a variable, the value may be anything
+			o.L = append(o.L, g.anyExpr(depth, "obj/value"))
+			o.Names = append(o.Names, "")
+			o.Star = append(o.Star, 0)
+			for len(o.Keys) < len(o.L)-1 {
+				o.Keys = append(o.Keys, nil)
+			}
+			o.Keys = append(o.Keys, &N{K: KPin, Str: g.strVars[g.t.Intn(len(g.strVars))]})
+			continue
+		}
 		o.L = append(o.L, g.anyExpr(depth, "obj/value"))
 		o.Names = append(o.Names, keys[g.t.Intn(len(keys))])
 		o.Star = append(o.Star, 0)
@@ -495,6 +513,9 @@ func (g *G) mapLit(depth int) *N {
 			// slots in the key, constant value
 			mp.Keys = append(mp.Keys, g.intExpr(depth, "map/key"))
 			mp.L = append(mp.L, &N{K: KInt, Int: int64(i)})
+		} else if len(g.strVars) > 0 && g.t.Chance(1, 3) {
+			mp.Keys = append(mp.Keys, &N{K: KPin, Str: g.strVars[g.t.Intn(len(g.strVars))]})
+			mp.L = append(mp.L, g.anyExpr(depth, "map/value"))
 		} else {
 			mp.Keys = append(mp.Keys, &N{K: KInt, Int: int64(100 + i)})
 			mp.L = append(mp.L, g.anyExpr(depth, "map/value"))
